@@ -50,6 +50,9 @@ func runC18(c *core.Ctx) {
 	c.MinInstances("C18-CMPP", 2)
 	c.MinInstances("C18-PRIM", 2)
 	importRules(c, "C20", "C18-PRIM", func(o core.Obligation) bool { return o.Rule == "C20-TERMINAL" || o.Rule == "C20-WHO" })
+	// the CMPP status report is a small PDU of its own: mirror / kind / exactly-once facts of C01 for that type
+	c.MinInstances("C18-REPORT", 5)
+	importRules(c, "C01", "C18-REPORT", func(o core.Obligation) bool { return strings.Contains(o.Key, "cmpp.SubPduDeliveryContent") })
 	c.Trust("strings.Index contract", "hex.EncodeToString", "SMPP 3.4 appendix B and SMGP 3.0.3 receipt format for the key table")
 	c.NotDecided("order independence for values that themselves contain key tokens (excluded by the property)")
 	finderRule(c, "smpp/smpp34", "findSubValue", false)
@@ -242,6 +245,7 @@ func finderRule(c *core.Ctx, rel, name string, truncates bool) {
 	}
 	c.Decide(endOK, "C18-OFFSET", key+"#end", pos, "value ends at the first space at or after start, else at the end of the text", "the value end is not the first space at or after the start / end of text: "+detail)
 	// every slice discharged
+	indexTests(c, key, fn)
 	checkSites(c, "C18-OFFSET", []*ssa.Function{fn})
 	// truncation
 	p := prover.New(fn)
@@ -408,6 +412,7 @@ func idRule(c *core.Ctx) {
 		problems = append(problems, "the value returned is not hex.EncodeToString of the ten octets")
 	}
 	c.Decide(len(problems) == 0, "C18-ID", key, pos, "hex of exactly s[start:start+10] under len(s) >= start+10", strings.Join(problems, "; "))
+	indexTests(c, key, fn)
 	checkSites(c, "C18-OFFSET", []*ssa.Function{fn})
 }
 
@@ -490,4 +495,62 @@ func keysRule(c *core.Ctx, rel, name, finder string, table []receiptKey, smgp bo
 		problems = append(problems, fmt.Sprintf("%d fields extracted through %s, expected %d", len(got), finder, len(table)))
 	}
 	c.Decide(len(problems) == 0, "C18-KEYS", key, pos, fmt.Sprintf("%d keys, straight-line", len(table)), strings.Join(uniq(problems), "; "))
+}
+
+// indexTests: every test of a strings.Index / IndexByte result against a constant must be one of the forms that mean
+// "not found" (== -1, < 0, <= -1) or "found" (!= -1, >= 0, > -1). A shifted bound (< 1, <= 0, == 0) treats a match at
+// offset 0 - a key that opens the text - as absent, or an absent one as present.
+func indexTests(c *core.Ctx, key string, fn *ssa.Function) {
+	var bad []string
+	n := 0
+	var walk func(v ssa.Value, seen map[ssa.Value]bool) bool
+	walk = func(v ssa.Value, seen map[ssa.Value]bool) bool { // does v hold an Index result (through phis)?
+		if seen[v] {
+			return false
+		}
+		seen[v] = true
+		switch x := v.(type) {
+		case *ssa.Call:
+			if cal := x.Call.StaticCallee(); cal != nil && cal.Pkg != nil && (cal.Pkg.Pkg.Path() == "strings" || cal.Pkg.Pkg.Path() == "bytes") && strings.HasPrefix(cal.Name(), "Index") {
+				return true
+			}
+		case *ssa.Phi:
+			for _, e := range x.Edges {
+				if walk(e, seen) {
+					return true
+				}
+			}
+		}
+		return false
+	}
+	for _, b := range fn.Blocks {
+		for _, ins := range b.Instrs {
+			bo, ok := ins.(*ssa.BinOp)
+			if !ok {
+				continue
+			}
+			x, y, op := bo.X, bo.Y, bo.Op
+			if _, isK := constInt(x); isK {
+				x, y = y, x
+				op = map[token.Token]token.Token{token.LSS: token.GTR, token.GTR: token.LSS, token.LEQ: token.GEQ, token.GEQ: token.LEQ, token.EQL: token.EQL, token.NEQ: token.NEQ}[op]
+			}
+			k, isK := constInt(y)
+			if !isK || !walk(x, map[ssa.Value]bool{}) {
+				continue
+			}
+			switch op {
+			case token.EQL, token.NEQ, token.LSS, token.LEQ, token.GTR, token.GEQ:
+			default:
+				continue
+			}
+			n++
+			good := (op == token.EQL && k == -1) || (op == token.NEQ && k == -1) || (op == token.LSS && k == 0) || (op == token.GEQ && k == 0) || (op == token.GTR && k == -1) || (op == token.LEQ && k == -1)
+			if !good {
+				bad = append(bad, fmt.Sprintf("search result compared `%s %d` at %s", op, k, c.Prog.Pos(bo.Pos())))
+			}
+		}
+	}
+	if n > 0 {
+		c.Decide(len(bad) == 0, "C18-OFFSET", key+"#found-tests", c.Prog.Pos(fn.Pos()), fmt.Sprintf("%d tests of search results, all exactly found / not found", n), strings.Join(bad, "; ")+": a match at offset 0 (a key that opens the text) is misclassified")
+	}
 }
